@@ -1,6 +1,7 @@
 from __future__ import absolute_import, division, unicode_literals
 
 from . import base
+from ..constants import namespaces
 
 
 class Filter(base.Filter):
@@ -15,9 +16,21 @@ class Filter(base.Filter):
         if previous1 is not None:
             yield previous2, previous1, None
 
+    def is_foreign(self, token):
+        return (token is not None and
+                token["type"] in ("StartTag", "EndTag", "EmptyTag") and
+                token.get("namespace") not in (None, namespaces["html"]))
+
     def __iter__(self):
         for previous, token, next in self.slider():
             type = token["type"]
+            if self.is_foreign(token):
+                # Only HTML elements have optional tags
+                yield token
+                continue
+            if self.is_foreign(next):
+                # A foreign element never matches an HTML element name
+                next = dict(next, name=None)
             if type == "StartTag":
                 if (token["data"] or
                         not self.is_optional_start(token["name"], previous, next)):
